@@ -258,6 +258,8 @@ func (sc *scratch) cleanup() {
 // ---------------------------------------------------------------------------------------------
 // workers
 
+var currentTier = "quick"
+
 type job struct {
 	sub     *Sub
 	mode    string
@@ -277,7 +279,7 @@ func (sc *scratch) exec(j *job) error {
 	env := append(os.Environ(),
 		"VERIF_HARNESS="+j.sub.Harness, "VERIF_CONFIG="+j.sub.Config, "VERIF_MODE="+j.mode,
 		fmt.Sprintf("VERIF_SEED=%d", j.seed), fmt.Sprintf("VERIF_WORKER=%d", j.worker), fmt.Sprintf("VERIF_WORKERS=%d", j.workers),
-		fmt.Sprintf("VERIF_BUDGET_MS=%d", j.budget.Milliseconds()), "VERIF_OUT="+j.out, "VERIF_REPLAY="+j.replay, "GOMAXPROCS=2")
+		fmt.Sprintf("VERIF_BUDGET_MS=%d", j.budget.Milliseconds()), "VERIF_OUT="+j.out, "VERIF_REPLAY="+j.replay, "GOMAXPROCS=2", "VERIF_TIER="+currentTier)
 	if j.maxRuns > 0 {
 		env = append(env, fmt.Sprintf("VERIF_MAXRUNS=%d", j.maxRuns))
 	}
@@ -572,6 +574,7 @@ func check(id, tier string, budgetOverride int, keep bool) int {
 		infra("unknown tier %s", tier)
 	}
 	seed := seedEnv()
+	currentTier = tier
 	t0 := time.Now()
 	if nativeMode {
 		var subs []Sub
@@ -673,7 +676,7 @@ func (sc *scratch) report(p *Prop, sub *Sub, fr *simrt.FailureRecord) string {
 	}
 	name := fmt.Sprintf("%s-%s-%s%s-%d-%d.json", p.ID, sub.Pkg, sub.Harness, cfgTag, fr.Seed, fr.Run)
 	path := filepath.Join(verifDir, "replays", name)
-	rp := &simrt.Replay{Property: p.ID, Harness: sub.Pkg + "/" + sub.Harness, Config: sub.Config, Seed: fr.Seed, Run: fr.Run, Decisions: fr.Decisions, Signature: fr.Signature, Detail: fr.Failure.Detail}
+	rp := &simrt.Replay{Property: p.ID, Harness: sub.Pkg + "/" + sub.Harness, Config: sub.Config, Tier: currentTier, Seed: fr.Seed, Run: fr.Run, Decisions: fr.Decisions, Signature: fr.Signature, Detail: fr.Failure.Detail}
 	raw := filepath.Join(sc.dir, "out", "raw-"+name)
 	writeJSON(raw, rp)
 	min := filepath.Join(sc.dir, "out", "min-"+name)
@@ -736,6 +739,9 @@ func replayCmd(path string) int {
 	}
 	pkg, h, _ := strings.Cut(rp.Harness, "/")
 	sub := &Sub{Pkg: pkg, Harness: h, Config: rp.Config}
+	if rp.Tier != "" {
+		currentTier = rp.Tier
+	}
 	sc := prepare("replay", []string{pkg}, false)
 	defer sc.cleanup()
 	abs, _ := filepath.Abs(path)
